@@ -237,7 +237,11 @@ func shellWorkflows(rng *rand.Rand, n int) []*spec.Spec {
 		for d := 0; d < depth; d++ {
 			pn := fmt.Sprintf("step_%d", d)
 			var cmd string
-			switch rng.Intn(7) {
+			switch rng.Intn(9) {
+			case 7: // a percent sign in the command (printf / date formats)
+				cmd = "printf '%s\\n' \"$(cat {i:in})\" > {o:out}"
+			case 8:
+				cmd = "awk '{printf \"%5d %s\\n\", NR, $0}' {i:in} > {o:out}"
 			case 4:
 				cmd = "tr a-z A-Z <{i:in} >{o:out}"
 			case 5:
@@ -274,7 +278,14 @@ func shellWorkflows(rng *rand.Rand, n int) []*spec.Spec {
 			s.Conns = append(s.Conns, &spec.Conn{From: prev, To: "gostep.in"})
 			prev = "gostep.out"
 		}
-		switch rng.Intn(3) {
+		switch rng.Intn(4) {
+		case 3: // diamond whose two branches start at the two outputs of ONE task: that task is one ancestor, listed once
+			s.Procs = append(s.Procs, &spec.Proc{Name: "fork", Kind: spec.KCmd, Cmd: "rev {i:in} > {o:flipped} && sort {i:in} > {o:sorted}"},
+				&spec.Proc{Name: "left", Kind: spec.KCmd, Cmd: "tr a-z A-Z < {i:in} > {o:out}"}, &spec.Proc{Name: "right", Kind: spec.KCmd, Cmd: "wc -l < {i:in} > {o:out}"},
+				&spec.Proc{Name: "merge", Kind: spec.KCmd, Cmd: "cat {i:a} {i:b} > {o:out}"})
+			s.Conns = append(s.Conns, &spec.Conn{From: prev, To: "fork.in"}, &spec.Conn{From: "fork.flipped", To: "left.in"}, &spec.Conn{From: "fork.sorted", To: "right.in"},
+				&spec.Conn{From: "left.out", To: "merge.a"}, &spec.Conn{From: "right.out", To: "merge.b"})
+			prev = "merge.out"
 		case 0: // diamond with a shared ancestor
 			s.Procs = append(s.Procs, &spec.Proc{Name: "left", Kind: spec.KCmd, Cmd: "rev {i:in} > {o:out}"}, &spec.Proc{Name: "right", Kind: spec.KCmd, Cmd: "sort {i:in} > {o:out}"},
 				&spec.Proc{Name: "merge", Kind: spec.KCmd, Cmd: "cat {i:a} {i:b} > {o:out}"})
@@ -362,7 +373,7 @@ func c20(args []string) {
 	if err != nil {
 		c.Broken(err.Error())
 	}
-	c.Rule("(a) audit files of real runs of flat-path workflows built from plain shell commands (cat, tr, sed, rev, sort, wc; chains of depth 1-5, diamonds with a shared ancestor, sub-stream joins, parameters; also produced by resumed runs: RunTo a prefix, then Run) and (b) audit trees generated directly (1-60 records, DAG-shaped sharing, equal / whole-second / zero start times, parameters and tags with underscores, source-file pseudo records) are converted with the CLI built from /repo/cmd/scipipe (audit2html, audit2tex, audit2bash); the outputs are parsed back and compared with the record flattened by id: every task (non-empty process name) listed exactly once, in non-decreasing start-time order, with its command, parameters and tags as the format prints them; for (a) the generated Bash script is executed in a directory holding only the source files and must re-create the file byte-identically. distinct_nontrivial = distinct audit trees with >= 2 tasks whose three conversions were all compared")
+	c.Rule("(a) audit files of real runs of flat-path workflows built from plain shell commands (cat, tr, sed, rev, sort, wc, printf / awk with percent signs; chains of depth 1-5, diamonds with a shared ancestor - also one whose branches start at the two outputs of one task -, sub-stream joins, parameters; also produced by resumed runs: RunTo a prefix, then Run) and (b) audit trees generated directly (1-60 records, DAG-shaped sharing, equal / whole-second / zero start times, parameters and tags with underscores, source-file pseudo records) are converted with the CLI built from /repo/cmd/scipipe (audit2html, audit2tex, audit2bash); the outputs are parsed back and compared with the record flattened by id: every task (non-empty process name) listed exactly once, in non-decreasing start-time order, with its command, parameters and tags as the format prints them; for (a) the generated Bash script is executed in a directory holding only the source files and must re-create the file byte-identically. distinct_nontrivial = distinct audit trees with >= 2 tasks whose three conversions were all compared")
 	c.Assume("source-file pseudo records (empty process name) are not tasks and are not judged", "TeX: '_' is printed as '\\_' and parameters as k=v; Bash: '../' is removed from commands by the template")
 	rng := c.Rand("c20")
 	type job struct {
@@ -441,6 +452,24 @@ func c20(args []string) {
 		tasks := map[string]*mon.AuditJSON{}
 		flattenByID(a, tasks)
 		c.Eval(1)
+		if j.kind == "real" {
+			// in a real run a (process, command) pair identifies one task execution (every command names its own
+			// output path): the same execution recorded under two ids would be listed twice by every format
+			byExec := map[string][]string{}
+			for id, t := range tasks {
+				if t.ProcessName != "" {
+					k := t.ProcessName + "\x00" + t.Command
+					byExec[k] = append(byExec[k], id)
+				}
+			}
+			for k, ids := range byExec {
+				if len(ids) > 1 {
+					sort.Strings(ids)
+					c.Violation("task-listed-more-than-once:one-execution-under-several-ids", fmt.Sprintf("the lineage of %s records one task execution (%s) under %d different ids %v: every report lists it %d times", finalPath, strings.Replace(k, "\x00", ": ", 1), len(ids), ids, len(ids)), desc)
+					return
+				}
+			}
+		}
 		outs, err := convert(cli, dir, auditFile)
 		if err != nil {
 			c.Violation("conversion-failed", err.Error(), desc)
